@@ -539,4 +539,355 @@ theorem cc_two_pos (cfg : Cfg) (st : SilkSt) (n fd : Nat) (h : condCodingOf cfg 
   · rw [if_pos h1] at h; omega
   · omega
 
+
+theorem step0_rel (cfg : Cfg) (hs hs' : Bool) (st st' : SilkSt) (c : Dec) (hi : Inv cfg st st') :
+    (step0 cfg hs st c).1 = (step0 cfg hs' st' c).1 ∧
+    (step0 cfg hs st c).2.2 = (step0 cfg hs' st' c).2.2 ∧
+    ChanEqv (step0 cfg hs st c).2.1 (step0 cfg hs' st' c).2.1 ∧
+    (readsFrame cfg hs 0 st.ch0 = true → PrevEq (step0 cfg hs st c).2.1 (step0 cfg hs' st' c).2.1) ∧
+    (step0 cfg hs st c).2.1.nFramesDecoded = st.ch0.nFramesDecoded + 1 ∧
+    (step0 cfg hs st c).2.1.vad = st.ch0.vad ∧
+    (step0 cfg hs st c).2.1.lbrrFlags = st.ch0.lbrrFlags := by
+  unfold step0
+  have hr : readsFrame cfg hs' 0 st'.ch0 = readsFrame cfg hs 0 st.ch0 := by
+    rw [readsFrame_zero, readsFrame_zero, ← hi.e0.1, ← hi.e0.2.2]
+  have hcc : condCodingOf cfg st' 0 st'.ch0.nFramesDecoded = condCodingOf cfg st 0 st.ch0.nFramesDecoded := by
+    rw [← hi.e0.1]
+    exact condCodingOf_congr cfg st' st 0 _ (by simp only [ch_zero]; exact hi.e0.2.2.symm) (by intro _ h; omega)
+  rw [hr, hcc]
+  exact chanStep_rel cfg _ 0 _ st.ch0 st'.ch0 c hi.e0 (by
+    intro _ h2
+    exact (hi.later (by have := cc_two_pos cfg st 0 _ h2; omega)).2.1 h2)
+
+theorem step1_rel (cfg : Cfg) (h2 : cfg.nCh = 2) (hL : cfg.lostFlag = 0 ∨ cfg.lostFlag = 2) (dom : Nat)
+    (st st' : SilkSt) (c : Dec) (hi : Inv cfg st st') :
+    (step1 cfg (hasSideOf cfg st dom) st c).1 = (step1 cfg (hasSideOf cfg st' dom) st' c).1 ∧
+    (step1 cfg (hasSideOf cfg st dom) st c).2.2 = (step1 cfg (hasSideOf cfg st' dom) st' c).2.2 ∧
+    ChanEqv (step1 cfg (hasSideOf cfg st dom) st c).2.1 (step1 cfg (hasSideOf cfg st' dom) st' c).2.1 ∧
+    (readsFrame cfg (hasSideOf cfg st dom) 1 st.ch1 = true →
+      PrevEq (step1 cfg (hasSideOf cfg st dom) st c).2.1 (step1 cfg (hasSideOf cfg st' dom) st' c).2.1) ∧
+    (step1 cfg (hasSideOf cfg st dom) st c).2.1.nFramesDecoded = st.ch1.nFramesDecoded + 1 ∧
+    (step1 cfg (hasSideOf cfg st dom) st c).2.1.vad = st.ch1.vad ∧
+    (step1 cfg (hasSideOf cfg st dom) st c).2.1.lbrrFlags = st.ch1.lbrrFlags := by
+  have h0 := step0_rel cfg (hasSideOf cfg st dom) (hasSideOf cfg st' dom) st st' c hi
+  unfold step1
+  have e1 := hi.e1 h2
+  have hr : readsFrame cfg (hasSideOf cfg st' dom) 1 st'.ch1 = readsFrame cfg (hasSideOf cfg st dom) 1 st.ch1 := by
+    rw [readsFrame_one, readsFrame_one, ← e1.1, ← e1.2.2]
+    unfold hasSideOf
+    rw [← e1.1, ← e1.2.2]
+    generalize st.ch1.lbrrFlags.getD st.ch1.nFramesDecoded 0 = f
+    rcases hL with hL | hL
+    · simp [hL]
+    · by_cases hf : f = 1
+      · simp [hL, h2, hf]
+      · simp [hL, hf]
+  have hnf : (step0 cfg (hasSideOf cfg st' dom) st' c).2.1.nFramesDecoded =
+      (step0 cfg (hasSideOf cfg st dom) st c).2.1.nFramesDecoded := h0.2.2.1.1.symm
+  have hcc : condCodingOf cfg st' 1 (step0 cfg (hasSideOf cfg st' dom) st' c).2.1.nFramesDecoded =
+      condCodingOf cfg st 1 (step0 cfg (hasSideOf cfg st dom) st c).2.1.nFramesDecoded := by
+    rw [hnf, h0.2.2.2.2.1]
+    exact condCodingOf_congr cfg st' st 1 _ (by simp only [ch_one]; exact e1.2.2.symm) (by
+      intro hk _
+      exact (hi.later (by omega)).1.symm)
+  rw [hr, hcc, ← h0.2.1]
+  refine chanStep_rel cfg _ 1 _ st.ch1 st'.ch1 _ e1 ?_
+  intro _ hc2
+  rw [h0.2.2.2.2.1] at hc2
+  have hpos := cc_two_pos cfg st 1 _ hc2
+  exact (hi.later (by omega)).2.2 h2 hc2
+
+/-- The per-channel loop keeps the two runs related; afterwards (with `prev_decode_only_middle := dom` stored) the
+    invariant holds again, now with a positive frame counter. -/
+theorem decodeChans_rel (cfg : Cfg) (hN : cfg.nCh = 1 ∨ cfg.nCh = 2) (hL : cfg.lostFlag = 0 ∨ cfg.lostFlag = 2)
+    (dom : Nat) (st st' : SilkSt) (c : Dec) (hi : Inv cfg st st') :
+    (decodeChans cfg (hasSideOf cfg st dom) st c).1 = (decodeChans cfg (hasSideOf cfg st' dom) st' c).1 ∧
+    (decodeChans cfg (hasSideOf cfg st dom) st c).2.2 = (decodeChans cfg (hasSideOf cfg st' dom) st' c).2.2 ∧
+    Inv cfg { (decodeChans cfg (hasSideOf cfg st dom) st c).2.1 with prevDecodeOnlyMiddle := dom }
+            { (decodeChans cfg (hasSideOf cfg st' dom) st' c).2.1 with prevDecodeOnlyMiddle := dom } ∧
+    (decodeChans cfg (hasSideOf cfg st dom) st c).2.1.ch0.nFramesDecoded = st.ch0.nFramesDecoded + 1 := by
+  have h0 := step0_rel cfg (hasSideOf cfg st dom) (hasSideOf cfg st' dom) st st' c hi
+  -- channel 0 was decoded whenever its next frame can be coded conditionally
+  have key0 : ∀ S : SilkSt, S.ch0.lbrrFlags = st.ch0.lbrrFlags →
+      condCodingOf cfg S 0 (st.ch0.nFramesDecoded + 1) = 2 → readsFrame cfg (hasSideOf cfg st dom) 0 st.ch0 = true := by
+    intro S hS hc
+    rw [readsFrame_zero]
+    rcases hL with hL | hL
+    · simp [hL]
+    · unfold condCodingOf at hc
+      have hidx : st.ch0.nFramesDecoded + 1 - 0 - 1 = st.ch0.nFramesDecoded := by omega
+      simp only [ch_zero, hS, hL, if_true, hidx] at hc
+      have hb : st.ch0.lbrrFlags.getD st.ch0.nFramesDecoded 0 ≠ 0 → st.ch0.lbrrFlags.getD st.ch0.nFramesDecoded 0 = 1 :=
+        bits_getD hi.b0
+      generalize st.ch0.lbrrFlags.getD st.ch0.nFramesDecoded 0 = f at hc hb ⊢
+      by_cases hz : f = 0
+      · simp [hz] at hc
+      · simp [hL, hb hz]
+  rcases hN with hN | hN
+  · have h2 : ¬ cfg.nCh = 2 := by omega
+    rw [decodeChans_mono cfg _ st c h2, decodeChans_mono cfg _ st' c h2]
+    refine ⟨h0.1, h0.2.1, ?_, ?_⟩
+    · refine ⟨?_, fun h => absurd h h2, fun h => absurd h h2, ?_, fun h => absurd h h2, ?_⟩
+      · simp only [setCh0_ch0]; exact h0.2.2.1
+      · simp only [setCh0_ch0]; rw [h0.2.2.2.2.2.2]; exact hi.b0
+      · intro _
+        refine ⟨rfl, ?_, fun h => absurd h h2⟩
+        simp only [setCh0_ch0]
+        intro hc
+        rw [h0.2.2.2.2.1] at hc
+        exact h0.2.2.2.1 (key0 _ (by simp only [setCh0_ch0]; exact h0.2.2.2.2.2.2) hc)
+    · simp only [setCh0_ch0]; exact h0.2.2.2.2.1
+  · have h1 := step1_rel cfg hN hL dom st st' c hi
+    rw [decodeChans_stereo cfg _ st c hN, decodeChans_stereo cfg _ st' c hN]
+    refine ⟨by rw [h0.1, h1.1], h1.2.1, ?_, ?_⟩
+    · refine ⟨?_, ?_, ?_, ?_, ?_, ?_⟩
+      · simp only [setCh1_ch0, setCh0_ch0]; exact h0.2.2.1
+      · intro _; simp only [setCh1_ch1]; exact h1.2.2.1
+      · intro _; simp only [setCh1_ch1, setCh1_ch0, setCh0_ch0]
+        rw [h1.2.2.2.2.1, h0.2.2.2.2.1, hi.sync hN]
+      · simp only [setCh1_ch0, setCh0_ch0]; rw [h0.2.2.2.2.2.2]; exact hi.b0
+      · intro _; simp only [setCh1_ch1]; rw [h1.2.2.2.2.2.2]; exact hi.b1 hN
+      · intro _
+        refine ⟨rfl, ?_, ?_⟩
+        · simp only [setCh1_ch0, setCh0_ch0]
+          intro hc
+          rw [h0.2.2.2.2.1] at hc
+          exact h0.2.2.2.1 (key0 _ (by simp only [setCh1_ch0, setCh0_ch0]; exact h0.2.2.2.2.2.2) hc)
+        · intro _
+          simp only [setCh1_ch0, setCh0_ch0, setCh1_ch1]
+          intro hc
+          rw [h0.2.2.2.2.1] at hc
+          apply h1.2.2.2.1
+          rw [readsFrame_one]
+          unfold condCodingOf at hc
+          simp only [ch_one, setCh1_ch1, h1.2.2.2.2.2.2] at hc
+          have hk : ¬ (st.ch0.nFramesDecoded + 1 + 1 ≤ 1) := by omega
+          simp only [hk, if_false] at hc
+          unfold hasSideOf
+          rcases hL with hL | hL
+          · have hl2 : ¬ cfg.lostFlag = 2 := by omega
+            simp only [hl2, if_false] at hc
+            have hd : dom = 0 := by
+              by_cases hd : dom = 0
+              · exact hd
+              · simp [hd] at hc
+            simp [hL, hd]
+          · simp only [hL, if_true] at hc
+            have hidx : st.ch0.nFramesDecoded + 1 + 1 - 1 - 1 = st.ch1.nFramesDecoded := by
+              rw [hi.sync hN]; omega
+            rw [hidx] at hc
+            have hb : st.ch1.lbrrFlags.getD st.ch1.nFramesDecoded 0 ≠ 0 → st.ch1.lbrrFlags.getD st.ch1.nFramesDecoded 0 = 1 :=
+              bits_getD (hi.b1 hN)
+            generalize st.ch1.lbrrFlags.getD st.ch1.nFramesDecoded 0 = f at hc hb ⊢
+            by_cases hz : f = 0
+            · simp [hz] at hc
+            · simp [hL, hN, hb hz]
+    · simp only [setCh1_ch0, setCh0_ch0]; exact h0.2.2.2.2.1
+
+
+theorem decodeBody_rel (cfg : Cfg) (hN : cfg.nCh = 1 ∨ cfg.nCh = 2) (hL : cfg.lostFlag = 0 ∨ cfg.lostFlag = 2)
+    (h h' : SkipSt) (hc : h.c = h'.c) (he : h.evs = h'.evs) (hd : h.dom = h'.dom) (hi : Inv cfg h.st h'.st) :
+    (decodeBody cfg h).1 = (decodeBody cfg h').1 ∧ (decodeBody cfg h).2.2 = (decodeBody cfg h').2.2 ∧
+    Inv cfg (decodeBody cfg h).2.1 (decodeBody cfg h').2.1 ∧
+    (decodeBody cfg h).2.1.ch0.nFramesDecoded = h.st.ch0.nFramesDecoded + 1 := by
+  unfold decodeBody decodeStereoHead
+  rw [← hc, ← hd, ← he, ← decodeStereoHeadG_eq _ _ cfg h.st h'.st h.dom h.c hi.e0 hi.e1]
+  generalize decodeStereoHeadG stereoDecodePred stereoDecodeMidOnly cfg h.st h.dom h.c = y
+  split
+  rename_i _ dom c1 e1
+  dsimp only
+  have hr := decodeChans_rel cfg hN hL dom h.st h'.st c1 hi
+  generalize decodeChans cfg (hasSideOf cfg h.st dom) h.st c1 = z at hr
+  generalize decodeChans cfg (hasSideOf cfg h'.st dom) h'.st c1 = z' at hr
+  dsimp only at hr ⊢
+  exact ⟨by rw [hr.1, hr.2.1], hr.2.1, hr.2.2.1, hr.2.2.2⟩
+
+theorem beginCall_true (cfg : Cfg) (st : SilkSt) :
+    (beginCall cfg true st).ch0.nFramesDecoded = 0 ∧ (cfg.nCh = 2 → (beginCall cfg true st).ch1.nFramesDecoded = 0) := by
+  unfold beginCall
+  simp only [if_true]
+  refine ⟨trivial, fun h => ?_⟩
+  simp only [h, if_true]
+
+theorem beginCall_false (cfg : Cfg) (st : SilkSt) (h : st.ch0.nFramesDecoded ≠ 0) : beginCall cfg false st = st := by
+  unfold beginCall
+  simp only [Bool.false_eq_true, if_false, h]
+
+/-- First call of a payload: from *arbitrary* states the two runs agree and end up related. -/
+theorem silkDecodeCall_first (cfg : Cfg) (hN : cfg.nCh = 1 ∨ cfg.nCh = 2) (hL : cfg.lostFlag = 0 ∨ cfg.lostFlag = 2)
+    (st st' : SilkSt) (c : Dec) :
+    (silkDecodeCall cfg true st c).1 = (silkDecodeCall cfg true st' c).1 ∧
+    (silkDecodeCall cfg true st c).2.2 = (silkDecodeCall cfg true st' c).2.2 ∧
+    Inv cfg (silkDecodeCall cfg true st c).2.1 (silkDecodeCall cfg true st' c).2.1 ∧
+    (silkDecodeCall cfg true st c).2.1.ch0.nFramesDecoded > 0 := by
+  unfold silkDecodeCall
+  have hb := beginCall_true cfg st
+  have hb' := beginCall_true cfg st'
+  rw [if_pos hb.1, if_pos hb'.1]
+  have hh := decodeHeader_rel cfg hN (beginCall cfg true st) (beginCall cfg true st') c
+    (by rw [hb.1, hb'.1]) (fun h => by rw [hb.2 h, hb'.2 h])
+  generalize beginCall cfg true st = b at hb hh
+  generalize beginCall cfg true st' = b' at hb' hh
+  have hi : Inv cfg (decodeHeader cfg b c).st (decodeHeader cfg b' c).st :=
+    ⟨hh.e0, hh.e1, fun h => by rw [hh.n1 h, hh.n0, hb.1, hb.2 h], hh.b0, hh.b1,
+     fun h => by rw [hh.n0, hb.1] at h; omega⟩
+  have hr := decodeBody_rel cfg hN hL _ _ hh.c hh.evs hh.dom hi
+  exact ⟨hr.1, hr.2.1, hr.2.2.1, by rw [hr.2.2.2]; omega⟩
+
+/-- A later call of the payload: related states stay related. -/
+theorem silkDecodeCall_later (cfg : Cfg) (hN : cfg.nCh = 1 ∨ cfg.nCh = 2) (hL : cfg.lostFlag = 0 ∨ cfg.lostFlag = 2)
+    (st st' : SilkSt) (c : Dec) (hi : Inv cfg st st') (hp : st.ch0.nFramesDecoded > 0) :
+    (silkDecodeCall cfg false st c).1 = (silkDecodeCall cfg false st' c).1 ∧
+    (silkDecodeCall cfg false st c).2.2 = (silkDecodeCall cfg false st' c).2.2 ∧
+    Inv cfg (silkDecodeCall cfg false st c).2.1 (silkDecodeCall cfg false st' c).2.1 ∧
+    (silkDecodeCall cfg false st c).2.1.ch0.nFramesDecoded > 0 := by
+  unfold silkDecodeCall
+  have h0 : st.ch0.nFramesDecoded ≠ 0 := by omega
+  have h0' : st'.ch0.nFramesDecoded ≠ 0 := by rw [← hi.e0.1]; exact h0
+  rw [beginCall_false cfg st h0, beginCall_false cfg st' h0', if_neg h0, if_neg h0']
+  have hr := decodeBody_rel cfg hN hL { st := st, dom := 0, c := c, evs := [] } { st := st', dom := 0, c := c, evs := [] }
+    rfl rfl rfl hi
+  exact ⟨hr.1, hr.2.1, hr.2.2.1, by rw [hr.2.2.2]; omega⟩
+
+theorem silkCalls_later (cfg : Cfg) (hN : cfg.nCh = 1 ∨ cfg.nCh = 2) (hL : cfg.lostFlag = 0 ∨ cfg.lostFlag = 2) :
+    ∀ (k : Nat) (st st' : SilkSt) (c : Dec), Inv cfg st st' → st.ch0.nFramesDecoded > 0 →
+    (silkCalls cfg k false st c).1 = (silkCalls cfg k false st' c).1 ∧
+    (silkCalls cfg k false st c).2.2 = (silkCalls cfg k false st' c).2.2
+  | 0, st, st', c, _, _ => by unfold silkCalls; exact ⟨rfl, rfl⟩
+  | k + 1, st, st', c, hi, hp => by
+    unfold silkCalls
+    have h1 := silkDecodeCall_later cfg hN hL st st' c hi hp
+    generalize silkDecodeCall cfg false st c = y at h1
+    generalize silkDecodeCall cfg false st' c = y' at h1
+    split
+    rename_i _ e1 st1 c1
+    dsimp only at h1 ⊢
+    have h2 := silkCalls_later cfg hN hL k st1 y'.2.1 c1 h1.2.2.1 h1.2.2.2
+    rw [← h1.2.1]
+    generalize silkCalls cfg k false st1 c1 = z at h2
+    generalize silkCalls cfg k false y'.2.1 c1 = z' at h2
+    exact ⟨by rw [h1.1, h2.1], h2.2⟩
+
+/-- All `silk_Decode` calls of one payload: events and final decoder context do not depend on the incoming state. -/
+theorem silkCalls_first (cfg : Cfg) (hN : cfg.nCh = 1 ∨ cfg.nCh = 2) (hL : cfg.lostFlag = 0 ∨ cfg.lostFlag = 2)
+    (k : Nat) (st st' : SilkSt) (c : Dec) :
+    (silkCalls cfg k true st c).1 = (silkCalls cfg k true st' c).1 ∧
+    (silkCalls cfg k true st c).2.2 = (silkCalls cfg k true st' c).2.2 := by
+  cases k with
+  | zero => unfold silkCalls; exact ⟨rfl, rfl⟩
+  | succ k =>
+    unfold silkCalls
+    have h1 := silkDecodeCall_first cfg hN hL st st' c
+    generalize silkDecodeCall cfg true st c = y at h1
+    generalize silkDecodeCall cfg true st' c = y' at h1
+    split
+    rename_i _ e1 st1 c1
+    dsimp only at h1 ⊢
+    have h2 := silkCalls_later cfg hN hL k st1 y'.2.1 c1 h1.2.2.1 h1.2.2.2
+    rw [← h1.2.1]
+    generalize silkCalls cfg k false st1 c1 = z at h2
+    generalize silkCalls cfg k false y'.2.1 c1 = z' at h2
+    exact ⟨by rw [h1.1, h2.1], h2.2⟩
+
+/-- Everything observable of a decoded frame: the record with the carried SILK state erased. -/
+def _root_.Opus.SilkSyms.FrameOut.obs (o : FrameOut) : FrameOut := { o with st := {} }
+
+theorem decodeOpusFrameCfg_hist (mode ir pm : Nat) (fec : Bool) (cfg : Cfg) (hN : cfg.nCh = 1 ∨ cfg.nCh = 2)
+    (hL : cfg.lostFlag = 0 ∨ cfg.lostFlag = 2) (st st' : SilkSt) (fr : Bytes) :
+    (decodeOpusFrameCfg mode ir pm fec cfg st fr).obs = (decodeOpusFrameCfg mode ir pm fec cfg st' fr).obs := by
+  unfold decodeOpusFrameCfg
+  have h := silkCalls_first cfg hN hL cfg.nfpp st st' (decInit fr fr.length)
+  generalize silkCalls cfg cfg.nfpp true st (decInit fr fr.length) = y at h
+  generalize silkCalls cfg cfg.nfpp true st' (decInit fr fr.length) = y' at h
+  split
+  rename_i _ evs st1 c1
+  dsimp only at h ⊢
+  rw [← h.1, ← h.2]
+  generalize redundancyHeader mode fec fr.length c1 = z
+  rfl
+
+
+/-! ### Frames of a packet -/
+
+def obsFrame : Res FrameOut → Res FrameOut
+  | .ok o => .ok o.obs
+  | r => r
+
+def _root_.Opus.SilkSyms.FrameRes.obs : FrameRes → FrameRes
+  | .silk off o => .silk off o.obs
+  | x => x
+
+def obsList : Res (List FrameRes) → Res (List FrameRes)
+  | .ok l => .ok (l.map FrameRes.obs)
+  | r => r
+
+def obsPacket : Res (Option (List FrameRes)) → Res (Option (List FrameRes))
+  | .ok (some l) => .ok (some (l.map FrameRes.obs))
+  | r => r
+
+theorem decodeOpusFrame_hist (mode bw nCh ms10 : Nat) (hN : nCh = 1 ∨ nCh = 2) (fec : Bool) (st st' : SilkSt)
+    (fr : Bytes) :
+    obsFrame (decodeOpusFrame mode bw nCh ms10 fec st fr) = obsFrame (decodeOpusFrame mode bw nCh ms10 fec st' fr) := by
+  unfold decodeOpusFrame
+  split
+  · split
+    · split
+      · unfold obsFrame
+        dsimp only
+        rw [decodeOpusFrameCfg_hist _ _ _ _ _ hN (by dsimp only; cases fec <;> simp) st st' fr]
+      all_goals rfl
+    all_goals rfl
+  all_goals rfl
+
+theorem framesLoop_hist (toc : Nat) (pkt : Bytes) (fec : Bool) : ∀ (spans : List (Nat × Nat)) (st st' : SilkSt),
+    obsList (framesLoop toc pkt fec spans st) = obsList (framesLoop toc pkt fec spans st')
+  | [], st, st' => by unfold framesLoop; rfl
+  | (off, sz) :: rest, st, st' => by
+    unfold framesLoop
+    split
+    · have ih := framesLoop_hist toc pkt fec rest st st'
+      generalize framesLoop toc pkt fec rest st = a at ih
+      generalize framesLoop toc pkt fec rest st' = b at ih
+      cases a <;> cases b <;> simp_all [obsList]
+    · split
+      · have ih := framesLoop_hist toc pkt fec rest st st'
+        generalize framesLoop toc pkt fec rest st = a at ih
+        generalize framesLoop toc pkt fec rest st' = b at ih
+        cases a <;> cases b <;> simp_all [obsList]
+      · have hN : Framing.getNbChannels toc = 1 ∨ Framing.getNbChannels toc = 2 := by
+          unfold Framing.getNbChannels; split <;> simp
+        have hf := decodeOpusFrame_hist (Framing.getMode toc) (Framing.getBandwidth toc) (Framing.getNbChannels toc)
+          (Framing.samplesPerFrame toc 48000 * 10 / 48) hN fec st st' ((pkt.drop off).take sz)
+        generalize decodeOpusFrame (Framing.getMode toc) (Framing.getBandwidth toc) (Framing.getNbChannels toc)
+          (Framing.samplesPerFrame toc 48000 * 10 / 48) fec st ((pkt.drop off).take sz) = A at hf
+        generalize decodeOpusFrame (Framing.getMode toc) (Framing.getBandwidth toc) (Framing.getNbChannels toc)
+          (Framing.samplesPerFrame toc 48000 * 10 / 48) fec st' ((pkt.drop off).take sz) = B at hf
+        cases A <;> cases B <;> simp only [obsFrame, Res.ok.injEq, reduceCtorEq] at hf <;> try rfl
+        · rename_i o o'
+          dsimp only
+          have ih := framesLoop_hist toc pkt fec rest o.st o'.st
+          generalize framesLoop toc pkt fec rest o.st = a at ih
+          generalize framesLoop toc pkt fec rest o'.st = b at ih
+          cases a <;> cases b <;> simp_all [obsList, FrameRes.obs]
+        · simp_all
+
+theorem someRes_obs (a b : Res (List FrameRes)) (h : obsList a = obsList b) :
+    obsPacket (someRes a) = obsPacket (someRes b) := by
+  cases a <;> cases b <;> simp_all [obsList, obsPacket, someRes]
+
+/-- The observable result of decoding a packet does not depend on the SILK decoder state left by earlier packets. -/
+theorem decodePacket_hist (fs : Nat) (fec pc : Bool) (st st' : SilkSt) (pkt : Bytes) :
+    obsPacket (decodePacket fs fec pc st pkt) = obsPacket (decodePacket fs fec pc st' pkt) := by
+  unfold decodePacket
+  split
+  · split
+    · unfold decodeFrames
+      split
+      · split
+        · rfl
+        · exact someRes_obs _ _ (framesLoop_hist _ _ _ _ _ _)
+      · exact someRes_obs _ _ (framesLoop_hist _ _ _ _ _ _)
+    all_goals rfl
+  · rfl
+
 end Opus.SilkSymsProofs
